@@ -51,9 +51,9 @@ func planFor(prop, tier string) (tierPlan, bool) {
 		// of concurrent workers on one shared instance: sched (plain build: only heading ids
 		// are judged here, data races are C07's)
 		if q {
-			return tierPlan{batches: []batch{{engine: "hist", runs: 160000}, {engine: "sched", runs: 16000}}, level: "exploration"}, true
+			return tierPlan{batches: []batch{{engine: "hist", runs: 160000}, {engine: "sched", runs: 16000, coldRuns: 200}, {engine: "sched", race: true, deep: true, runs: 1600, coldRuns: 320}}, level: "exploration"}, true
 		}
-		return tierPlan{batches: []batch{{engine: "hist", runs: 1000000}, {engine: "sched", runs: 400000}}, level: "exploration"}, true
+		return tierPlan{batches: []batch{{engine: "hist", runs: 1000000}, {engine: "sched", runs: 400000, coldRuns: 3000}, {engine: "sched", race: true, deep: true, runs: 60000, coldRuns: 6000}}, level: "exploration"}, true
 	case "C07":
 		if q {
 			return tierPlan{batches: []batch{{engine: "sched", race: true, runs: 48000, coldRuns: 480}, {engine: "sched", race: true, deep: true, runs: 4000, coldRuns: 96}}, level: "exploration"}, true
@@ -281,7 +281,8 @@ func cmdDrive(args []string) {
 	var must []string
 	switch *prop {
 	case "C14":
-		must = []string{"fired.short+err", "fired.zero+err", "fired.full+err", "fired.always", "fired.transient", "fired.short+nil", "probe.fault_beyond_4096", "probe.fault_at_offset_0", "probe.fault_on_last_sink_call", "control_runs"}
+		must = []string{"fired.short+err", "fired.zero+err", "fired.full+err", "fired.always", "fired.transient", "fired.short+nil", "probe.fault_beyond_4096", "probe.fault_at_offset_0", "probe.fault_on_last_sink_call", "control_runs",
+			"errkind.temporary", "errkind.timeout", "errkind.shortwrite", "errkind.eof", "errkind.closedpipe", "errkind.epipe", "errkind.deadline"}
 	case "C06":
 		must = []string{"probe.rerenders", "probe.stale_tree_renders", "probe.ops_after_failed_op", "probe.same_doc_back_to_back", "op.Convert", "op.PkgConvert", "op.Parse", "op.Render", "op.ParseRender"}
 	case "C15":
